@@ -200,11 +200,17 @@ def nt_pattern(case):
 
 @st.composite
 def embed_case(draw):
-    g = draw(gen.geom(nmax=6, exps=(-9, 3), maxcells=300, names=False))
+    g = draw(gen.geom(nmax=6, exps=(-9, 3), maxcells=300, names=True))
     nd = len(g["n"])
     dims = gen.dims_of(g)
-    single = [d for d in dims if len(d) == 1]
-    bc = "".join(d for d in single if draw(st.booleans())) if draw(st.booleans()) else ""
+    single = [d for d in dims if len(d) == 1 and d.islower()]
+    bck = draw(st.integers(0, 5))
+    if bck <= 2:
+        bc = "".join(d for d in single if draw(st.booleans()))
+    elif bck == 3:
+        bc = draw(st.sampled_from(["neumann", "dirichlet"]))  # not periodic, whatever the dimensions are called
+    else:
+        bc = ""
     return {"g": g, "nvdim": draw(st.integers(1, 4)), "seed": draw(st.integers(0, 2**31)),
             "mask": draw(gen.mask_spec(nd)), "axis": draw(st.integers(0, nd - 1)), "order": draw(st.integers(1, 2)),
             "bc": bc, "r2v": draw(st.booleans()), "vdims": None, "unit": draw(st.sampled_from(gen.FIELD_UNITS))}
@@ -221,7 +227,7 @@ def check_embed(case):
     arr = gen.make_array(case["seed"], (*n, nvdim), "int")
     mask = gen.make_mask(case["mask"], n)
     f = df.Field(mesh, nvdim=nvdim, value=arr, valid=mask, unit=case["unit"])
-    periodic = dims[ax] in case["bc"]
+    periodic = case["bc"] not in ("neumann", "dirichlet") and dims[ax] in case["bc"]
     tag(f"ndim={nd}")
     tag("periodic" if periodic else "open")
     res = f.diff(dims[ax], order=order, restrict2valid=case["r2v"])
